@@ -532,6 +532,8 @@ type emission struct {
 	ChildUses map[int]int
 	Flags     map[int][2]bool // opaque idx -> parentDetect, parentMultipleKey as left after the real pass
 	Err       string
+	JumpsDry  []int64 // labels marked used, in order, during the dry pass
+	JumpsReal []int64 // … and during the real pass
 }
 
 func (m *model) run(rg *region) (em *emission) {
@@ -650,6 +652,15 @@ func (m *model) run(rg *region) (em *emission) {
 	it.onCall = func(cl *Closure, args []Value) {
 		if cl.lit == ast.Node(rg.compileLit) {
 			stack = append(stack, frame{it.out.Len()})
+		}
+		if cl.lit == ast.Node(rg.jumpLit) && len(args) == 1 {
+			if l, ok := args[0].(int64); ok {
+				if it.templateData == nil {
+					em.JumpsDry = append(em.JumpsDry, l)
+				} else {
+					em.JumpsReal = append(em.JumpsReal, l)
+				}
+			}
 		}
 	}
 	it.onRet = func(cl *Closure, args []Value, res []Value) {
